@@ -1366,6 +1366,16 @@ def run_c20(ctx):
         must = [s for _, s in gen.corpus() if _.startswith("sample:")]
         progs, stats = gen_programs(ctx, False, sim_n=2500 if q else 40000, fuel_sim=[6, 12])
         must += ["".join(j["src"]) for j in progs]
+        # well-formed programs with text outside ASCII: a comment in front, comments inside, a BOM
+        nonascii = []
+        for k, pr in enumerate(must):
+            if k % 3 == 0:
+                nonascii.append("/* Gr\u00f6\u00dfe \U0001F525 */\n" + pr)
+            elif k % 3 == 1 and "/*c*/" in pr:
+                nonascii.append(pr.replace("/*c*/", "/*\u00e7\u4e2d*/"))
+            elif k % 7 == 2:
+                nonascii.append("\ufeff" + pr)
+        must += nonascii
         ctx.add_cases("wellformed", must)
         nmust = len(ctx.cases)
         base_inputs(ctx, soup_n=2500 if q else 40000, mb_n=400 if q else 4000, lf_n=200 if q else 2000, cover_n=400 if q else 20000)
